@@ -680,9 +680,239 @@ func runC17(rc *RunCtx) {
 	if s.Viol == nil {
 		checkAll(h, "end", nil, -1, -1)
 	}
+	// ---- concurrent phase (a third of the runs): encrypt / decrypt / rewrap
+	// requests race with rotate and config on one key, at storage-operation
+	// and lock-hand-off granularity
+	if s.Viol == nil && !s.Trunc && tp.Pick(3) == 0 {
+		var k *trKey
+		for _, x := range keys {
+			if x.canEncrypt && !x.convergent {
+				k = x
+			}
+		}
+		if k != nil {
+			c17Concurrent(rc, h, k, &cts, note, viol)
+			if s.Viol == nil && !s.Trunc {
+				// the durable state equals what the live node served: a fresh
+				// Core (cold cache) answers every ciphertext the same way
+				nh, err := Reboot(disk.Fork(s), h)
+				if err != nil {
+					panic(err)
+				}
+				old := h
+				h, disk = nh, nh.Disk
+				old.Shutdown()
+				checkAll(h, "after concurrent phase + restart", nil, -1, -1)
+			}
+		}
+	}
 	s.ProbeN("crash_prefixes", crashes)
 	s.ProbeN("ciphertexts", len(cts))
 	rc.Res.Evals = crashes + len(cts) + 1
 	rc.Res.Sample = map[string]any{"history": tail(hist, 25), "ciphertexts": len(cts), "crash_prefixes": crashes}
 	rc.Res.StateSig = fmt.Sprintf("k%d/c%d/s%d", len(keys), len(cts), len(sigs))
+}
+
+
+// c17Concurrent: 3-4 client tasks on key k. Oracle: every ciphertext produced
+// names a version between the latest version before the phase and after it;
+// a decrypt answers with exactly the plaintext or an error; afterwards the
+// key reports latest = before + successful rotations and a minimum decryption
+// version that one of the (successful) config requests - or nobody - set, and
+// every ciphertext, old and new, decrypts iff its version is admitted.
+func c17Concurrent(rc *RunCtx, h *CoreH, k *trKey, cts *[]*trCT, note func(string, ...any), viol func(string, map[string]any, string, ...any)) {
+	s, tp := rc.S, rc.S.Tape
+	latest0, minDec0 := k.latest, k.minDec
+	type encRes struct {
+		c   *trCT
+		err error
+	}
+	var encs []*encRes
+	rotOK := 0
+	var cfgOK []int
+	var mutErrs []string // rotate / config requests that returned an error (no fault is injected in this phase)
+	var panics []string
+	guard := func(f func()) func() {
+		return func() {
+			defer func() {
+				if r := recover(); r != nil {
+					s.mu.Lock()
+					panics = append(panics, fmt.Sprint(r))
+					s.mu.Unlock()
+				}
+			}()
+			f()
+		}
+	}
+	nTasks := 3 + tp.Pick(2)
+	type decRes struct {
+		c   *trCT
+		got string
+		err error
+	}
+	var decs []*decRes
+	s.SwarmFreeze()
+	s.SetControlled()
+	for i := 0; i < nTasks; i++ {
+		tag := fmt.Sprintf("x%d", i)
+		switch kind := tp.Pick(5); {
+		case kind <= 1: // encrypt twice
+			for j := 0; j < 2; j++ {
+				pt := []byte(fmt.Sprintf("conc-%d-%d-%d", i, j, tp.Pick(1000)))
+				e := &encRes{c: &trCT{key: k, pt: pt}}
+				data := map[string]any{"plaintext": b64(pt)}
+				if k.derived {
+					e.c.ctx = []byte("ctx-0")
+					data["context"] = b64(e.c.ctx)
+				}
+				encs = append(encs, e)
+				if j == 0 {
+					e2 := e
+					d2 := data
+					s.Go(tag, guard(func() {
+						resp, err := h.Do(tag, Req{Op: logical.UpdateOperation, Path: "transit/encrypt/" + k.name, Token: h.Root, Data: d2})
+						if err == nil && resp != nil && resp.IsError() {
+							err = resp.Error()
+						}
+						e2.err = err
+						if err == nil && resp != nil {
+							e2.c.ct = fmt.Sprint(resp.Data["ciphertext"])
+							e2.c.version = ctVersion(e2.c.ct)
+						}
+					}))
+				} else {
+					encs = encs[:len(encs)-1]
+				}
+			}
+		case kind == 2: // rotate
+			s.Go(tag, guard(func() {
+				resp, err := h.Do(tag, Req{Op: logical.UpdateOperation, Path: "transit/keys/" + k.name + "/rotate", Token: h.Root})
+				s.mu.Lock()
+				if err == nil && (resp == nil || !resp.IsError()) {
+					rotOK++
+				} else {
+					mutErrs = append(mutErrs, fmt.Sprintf("rotate: %v %v", err, resp))
+				}
+				s.mu.Unlock()
+			}))
+		case kind == 3: // config: raise / lower min_decryption_version
+			nd := 1 + tp.Pick(latest0)
+			s.Go(tag, guard(func() {
+				resp, err := h.Do(tag, Req{Op: logical.UpdateOperation, Path: "transit/keys/" + k.name + "/config", Token: h.Root, Data: map[string]any{"min_decryption_version": nd, "min_encryption_version": 0}})
+				s.mu.Lock()
+				if err == nil && (resp == nil || !resp.IsError()) {
+					cfgOK = append(cfgOK, nd)
+				} else {
+					mutErrs = append(mutErrs, fmt.Sprintf("config min_dec=%d: %v %v", nd, err, resp))
+				}
+				s.mu.Unlock()
+			}))
+		default: // decrypt an existing ciphertext of this key
+			var mine []*trCT
+			for _, c := range *cts {
+				if c.key == k {
+					mine = append(mine, c)
+				}
+			}
+			if len(mine) == 0 {
+				continue
+			}
+			c := mine[tp.Pick(len(mine))]
+			d := &decRes{c: c}
+			decs = append(decs, d)
+			s.Go(tag, guard(func() {
+				data := map[string]any{"ciphertext": c.ct}
+				if c.ctx != nil {
+					data["context"] = b64(c.ctx)
+				}
+				if c.aad != nil {
+					data["associated_data"] = b64(c.aad)
+				}
+				resp, err := h.Do(tag, Req{Op: logical.UpdateOperation, Path: "transit/decrypt/" + k.name, Token: h.Root, Data: data})
+				if err == nil && resp != nil && resp.IsError() {
+					err = resp.Error()
+				}
+				d.err = err
+				if err == nil && resp != nil {
+					b, _ := base64.StdEncoding.DecodeString(fmt.Sprint(resp.Data["plaintext"]))
+					d.got = string(b)
+				}
+			}))
+		}
+	}
+	s.Run()
+	s.PassThrough()
+	if s.Trunc || s.Viol != nil {
+		return
+	}
+	s.Probe("concurrent_phase")
+	note("concurrent phase on %s: %d encrypts, %d rotations ok, configs ok %v, %d decrypts, failed mutations %v", k.name, len(encs), rotOK, cfgOK, len(decs), mutErrs)
+	sig := map[string]any{"phase": "concurrent", "key_type": k.typ}
+	if len(mutErrs) > 0 {
+		// A rotate / config request failed although nothing was injected: its
+		// storage transaction (begun before it got the key's lock) lost the
+		// commit against the other mutation. "A rotate/config that returned an
+		// error changed nothing" is judged first; if it did change the cached
+		// key, everything after it (other requests failing, panicking, using a
+		// version that was never persisted) is a symptom of that, not a
+		// separate violation - the run stops here.
+		s.Probe("concurrent_mutation_lost_commit")
+		resp, err := h.Do("readkey", Req{Op: logical.ReadOperation, Path: "transit/keys/" + k.name, Token: h.Root})
+		changed := len(panics) > 0 || err != nil || resp == nil || resp.IsError()
+		lv, md := 0, 0
+		if !changed {
+			lv, md = toInt(resp.Data["latest_version"]), toInt(resp.Data["min_decryption_version"])
+			okMin := md == minDec0
+			for _, v := range cfgOK {
+				okMin = okMin || v == md
+			}
+			changed = lv != latest0+rotOK || !okMin
+		}
+		if changed {
+			viol("failed-mutation-changed-state", map[string]any{"op": "concurrent rotate/config", "commit_failed": true},
+				"concurrent mutations of %s: %v returned an error (commit conflict, no fault injected), yet the key now reports latest=%d min_dec=%d (before: latest=%d min_dec=%d; successful rotations %d, successful configs %v); panics in later requests: %v", k.name, mutErrs, lv, md, latest0, minDec0, rotOK, cfgOK, panics)
+		}
+		s.Trunc = true // the rest of this run would only re-observe the same damage
+		return
+	}
+	if len(panics) > 0 {
+		viol("panic-in-request", map[string]any{"where": "transit concurrent phase"}, "a request of the concurrent phase panicked: %v", panics)
+		return
+	}
+	for _, d := range decs {
+		if d.err == nil && d.got != string(d.c.pt) {
+			viol("decrypt-returned-other-bytes", sig, "concurrent decrypt of a v%d ciphertext of %s returned %q, the plaintext was %q", d.c.version, k.name, d.got, d.c.pt)
+			return
+		}
+	}
+	for _, e := range encs {
+		if e.err != nil {
+			continue
+		}
+		if e.c.version < latest0 || e.c.version > latest0+rotOK {
+			viol("encrypt-wrong-version", sig, "an encrypt racing with %d rotations of %s used version %d; the latest version was %d before and %d after", rotOK, k.name, e.c.version, latest0, latest0+rotOK)
+			return
+		}
+		*cts = append(*cts, e.c)
+	}
+	resp, err := h.Do("readkey", Req{Op: logical.ReadOperation, Path: "transit/keys/" + k.name, Token: h.Root})
+	if err != nil || resp == nil || resp.IsError() {
+		return
+	}
+	lv, md := toInt(resp.Data["latest_version"]), toInt(resp.Data["min_decryption_version"])
+	if lv != latest0+rotOK {
+		viol("rotation-lost-or-invented", sig, "%d rotations of %s succeeded concurrently, latest_version went from %d to %d", rotOK, k.name, latest0, lv)
+		return
+	}
+	okMin := md == minDec0
+	for _, v := range cfgOK {
+		if v == md {
+			okMin = true
+		}
+	}
+	if !okMin {
+		viol("config-lost-or-invented", sig, "min_decryption_version of %s is %d after the concurrent phase; it was %d and the successful config requests set %v", k.name, md, minDec0, cfgOK)
+		return
+	}
+	k.latest, k.minDec, k.minEnc = lv, md, 0
 }
